@@ -154,7 +154,14 @@ func (s *Stack) Lookup(name string) (any, bool) {
 func (s *Stack) Resolve(expr string) (any, bool) {
 	// Fast path: if no dots or brackets, do direct lookup
 	if !strings.ContainsAny(expr, ".[") {
-		return s.Lookup(expr)
+		if v, ok := s.Lookup(expr); ok {
+			return v, true
+		}
+		// (white space around a name is not part of it, as around the steps of a longer path)
+		if trimmed := strings.TrimSpace(expr); trimmed != expr {
+			return s.Lookup(trimmed)
+		}
+		return nil, false
 	}
 
 	// Parse once (with caching)
